@@ -108,6 +108,37 @@ theorem sign_no_output_on_error (d : Option Data) (key : Option (List Nat)) (o :
 
 end
 
+/-- the Signature Segment handed out with SUCCESS holds what `ECDSA_sign` produced over the RFC sequence:
+    if `ECDSA_sign` yields well-formed (strict DER) ECDSA-Sig-Values, so does `rtr_bgpsec_generate_signature`;
+    and the answer is a function of the call's arguments only (the model has no state: history-independence
+    of the implementation is what the correspondence over repeated-input histories establishes). -/
+theorem generate_wellformed {H SK : Type} (hash : List Nat → H) (loadKey : List Nat → Option SK) (sign : SK → H → List Nat)
+    (wf : List Nat → Bool) (hwf : ∀ sk h, wf (sign sk h) = true)
+    (d : Option Data) (key : Option (List Nat)) (o : Bool) (sig : List Nat)
+    (h : (generateSignature hash loadKey sign d key o).2 = some sig) : wf sig = true ∧ 1 ≤ sig.length := by
+  cases d with
+  | none => simp [generateSignature] at h
+  | some d =>
+    cases key with
+    | none => simp [generateSignature] at h
+    | some key =>
+      simp only [generateSignature] at h
+      split at h
+      · simp at h
+      split at h
+      · simp at h
+      split at h
+      · simp at h
+      split at h
+      · simp at h
+      split at h
+      · simp at h
+      · split at h
+        · simp at h
+        · simp only [Option.some.injEq] at h
+          subst h
+          exact ⟨hwf _ _, by omega⟩
+
 /-! ### paths built hop by hop validate -/
 
 section
@@ -156,6 +187,25 @@ theorem hop_by_hop_valid (m : KeyMode) (stop : Bool) (T : Table) (base : Data) (
       obtain ⟨sk, h, e⟩ := buildPath_last_sig hash sign base _ s hs
       rw [hfld.2, e]; exact hsig sk h
 
+
+/-- **Hop by hop, with the strict-DER requirement of `validate_signature`.**  If in addition every signature
+    `sign` produces is a well-formed (strict DER) ECDSA-Sig-Value (`wf`), the paths built hop by hop are VALID
+    for the complete validation function `validateFull` (which answers ERROR for any signature field that is
+    not strict DER). -/
+theorem hop_by_hop_valid_wf (wf : List Nat → Bool) (m : KeyMode) (stop : Bool) (T : Table) (base : Data)
+    (hops : List (Signer SK × Nat))
+    (halg : base.alg = 1) (hafi : base.nlri.afi = 1 ∨ base.nlri.afi = 2)
+    (hch : Chained hops) (hski : ∀ h ∈ hops, h.1.ski.length = 20)
+    (hreg : ∀ h ∈ hops, Registered m T h.1 ∧ KeyPair verify sign h.1)
+    (hwf : ∀ sk h, wf (sign sk h) = true)
+    (hsig : stop = true ∨ ∀ sk h, base.nlri.bytes.length < 13 + (sign sk h).length)
+    (k : Nat) (hk : k < hops.length) :
+    validateFull hash verify wf m stop (buildPath hash sign base (hops.drop k)) (fun _ => T) = .valid := by
+  have := hop_by_hop_valid hash (validateSignature wf verify) sign m stop T base hops halg hafi hch hski
+    (fun h hh => ⟨(hreg h hh).1, fun x => by
+      rw [validateSignature_valid_iff]; exact ⟨hwf _ _, (hreg h hh).2 x⟩⟩) hsig k hk
+  exact this
+
 end
 
 /-! ### non-vacuity (toy crypto: signature = key ++ hashed octets) -/
@@ -178,6 +228,10 @@ example : validate toyHash toyVerify .skiOnly false (buildPath toyHash toySign b
 example : validate toyHash toyVerify .skiOnly false (buildPath toyHash toySign base (hops.drop 1)) table = .valid := by decide
 example : validate toyHash toyVerify .skiAndAs true (buildPath toyHash toySign base hops) tableAs = .valid := by decide
 example : validate toyHash toyVerify .skiAndAs true (buildPath toyHash toySign base hops) table = .routerKeyNotFound := by decide
+-- hop_by_hop_valid_wf: with the strict-DER requirement switched on (toy: well-formed = at most 200 octets) the built path is
+-- VALID, and the same path is an ERROR for a `wf` that refuses the generated signatures
+example : validateFull toyHash toyVerify (fun s => s.length ≤ 200) .skiAndAs true (buildPath toyHash toySign base hops) (fun _ => tableAs) = .valid := by decide
+example : validateFull toyHash toyVerify (fun s => s.length ≤ 5) .skiAndAs true (buildPath toyHash toySign base hops) (fun _ => tableAs) = .error := by decide
 -- sign_digest_eq_rfc on a forwarding step (one earlier signature, IPv6 /33)
 example :
     let d := { buildPath toyHash toySign base (hops.drop 1) with path := transit.seg :: (buildPath toyHash toySign base (hops.drop 1)).path, targetAs := 65537 }
